@@ -205,6 +205,55 @@ def operators(w, cfg):
         w.canary('canary: sparse raises', sp_exc is not None)
 
 
+# --------------------------------------------------------------------------- writes to read-only arrays are rejected
+# (added after the seeded change C09_4: SparseVector.__itruediv__ generated without the read-only test.  The statement says
+#  "writes to read-only arrays are rejected"; every way of writing is tried on a read-only target with every operand kind.)
+
+RO_WRITES = ['iadd', 'isub', 'imul', 'itruediv', 'setitem-int', 'setitem-slice', 'setitem-all', 'clear']
+RO_OPERANDS = [('scalar', ()), ('list', (1,)), ('list', (2,)), ('ndarray', (2,)), ('ndarray', (1, 2)), ('SparseVector', (1,)),
+               ('SparseVector', (2,)), ('SparseArray', (1, 2))]
+
+
+def ro_configs(tier):
+    out = []
+    for lk, ls in (('SparseVector', (2,)), ('SparseArray', (2, 2)), ('SparseArray-row', (2, 2))):
+        for wr in RO_WRITES:
+            for rk, rs in (RO_OPERANDS if wr in IBIN else [('scalar', ())]):
+                if tier == 'quick' and wr in ('isub', 'imul') and rk not in ('scalar', 'SparseVector'): continue
+                out.append({'name': f'read-only {lk}{list(ls)} {wr} {rk}{list(rs)}', 'l': [lk, list(ls)], 'r': [rk, list(rs)], 'write': wr})
+    return out
+
+
+@group('C09/read_only', configs=ro_configs,
+       functions=['thermosteam.base.sparse:SparseVector.__iadd__/__isub__/__imul__/__itruediv__ (exec templates)',
+                  'thermosteam.base.sparse:SparseArray.__iadd__ ... __itruediv__ (exec templates)',
+                  'thermosteam.base.sparse:SparseVector.__setitem__', 'thermosteam.base.sparse:SparseArray.__setitem__',
+                  'thermosteam.base.sparse:SparseVector.clear', 'thermosteam.base.sparse:SparseVector.setflags',
+                  'thermosteam.base.sparse:SparseArray.setflags'])
+def read_only(w, cfg):
+    wr = cfg['write']
+    lk = cfg['l'][0]
+    a, A = mk_operand(w, 'a', 'SparseArray' if lk.startswith('SparseArray') else lk, tuple(cfg['l'][1]))
+    b, B = mk_operand(w, 'b', cfg['r'][0], tuple(cfg['r'][1]), nonzero=True)
+    a.setflags(0)
+    target = a.rows[0] if lk == 'SparseArray-row' else a      # a row of a read-only 2-d array is read-only too
+    A0 = image(a).copy()
+    exc = None
+    try:
+        if wr in IBIN: IBIN[wr](target, b)
+        elif wr == 'setitem-int': target[0] = b
+        elif wr == 'setitem-slice': target[0:1] = b
+        elif wr == 'setitem-all': target[:] = b
+        else: target.clear()
+    except ValueError as e:
+        exc = e
+    w.ensure('a write to a read-only array is rejected (ValueError)', exc is not None)
+    w.ensure('the read-only array is unchanged', same(w, image(a), A0))
+    w.ensure('rep_ok', rep_ok(w, a))
+    w.canary('canary: the write went through', exc is None)
+    w.canary('canary: first element changed', w.ne(image(a).flat[0], A0.flat[0]))
+
+
 # --------------------------------------------------------------------------- reductions with axis / keepdims
 
 def red_configs(tier):
